@@ -1,6 +1,7 @@
 import Ark.Proofs.Rejects
 import Ark.Generated.FactsLock
 import Ark.Generated.FactsAlive
+import Ark.Props.C10Rel
 
 namespace Ark.Props.C10
 open Ark
@@ -62,5 +63,75 @@ theorem addCore_locked : type_of% @World.addCore_locked := @World.addCore_locked
 
 /-- changing a locked world: panic, state unchanged -/
 theorem opRemoveEntity_locked : type_of% @World.opRemoveEntity_locked := @World.opRemoveEntity_locked
+
+
+/-! ### Relation arguments are validated first, on every access path (Props/C10Rel; repairs D24 and D26) -/
+
+/-- the pre-validation of relation arguments returns the unchanged world, and its panic class is that of the first failing relation (order: target, relation component, membership) — typed, Map and ID-based path -/
+theorem rel_preCheck_is_verdict : type_of% @Ark.Props.C10Rel.preCheck_is_verdict := @Ark.Props.C10Rel.preCheck_is_verdict
+
+/-- a relation passes iff its target is zero or alive, its component is a relation component and (where asked) it is among the components of the call -/
+theorem rel_relation_passes_iff : type_of% @Ark.Props.C10Rel.relation_passes_iff := @Ark.Props.C10Rel.relation_passes_iff
+
+/-- NewEntity with a refused relation list: exactly `panic k`, world unchanged — no hypothesis on the world -/
+theorem rel_newEntity_refused : type_of% @Ark.Props.C10Rel.newEntity_refused := @Ark.Props.C10Rel.newEntity_refused
+
+/-- Add with a refused relation list: exactly `panic k`, world unchanged -/
+theorem rel_add_refused : type_of% @Ark.Props.C10Rel.add_refused := @Ark.Props.C10Rel.add_refused
+
+/-- Exchange with a refused relation list: exactly `panic k`, world unchanged -/
+theorem rel_exchange_refused : type_of% @Ark.Props.C10Rel.exchange_refused := @Ark.Props.C10Rel.exchange_refused
+
+/-- SetRelations with a refused relation list: exactly `panic k`, world unchanged -/
+theorem rel_setRelations_refused : type_of% @Ark.Props.C10Rel.setRelations_refused := @Ark.Props.C10Rel.setRelations_refused
+
+/-- **naming a removed entity as target always panics, world unchanged** — NewEntity, every path -/
+theorem rel_newEntity_removed_target : type_of% @Ark.Props.C10Rel.newEntity_removed_target := @Ark.Props.C10Rel.newEntity_removed_target
+
+/-- … Add, every path (a dead entity handle is reported first) -/
+theorem rel_add_removed_target : type_of% @Ark.Props.C10Rel.add_removed_target := @Ark.Props.C10Rel.add_removed_target
+
+/-- … Exchange, every path -/
+theorem rel_exchange_removed_target : type_of% @Ark.Props.C10Rel.exchange_removed_target := @Ark.Props.C10Rel.exchange_removed_target
+
+/-- … SetRelations, every path -/
+theorem rel_setRelations_removed_target : type_of% @Ark.Props.C10Rel.setRelations_removed_target := @Ark.Props.C10Rel.setRelations_removed_target
+
+/-- exactly `deadTarget` when the relations before the offending one pass -/
+theorem rel_newEntity_removed_target_exact : type_of% @Ark.Props.C10Rel.newEntity_removed_target_exact := @Ark.Props.C10Rel.newEntity_removed_target_exact
+
+/-- … Add -/
+theorem rel_add_removed_target_exact : type_of% @Ark.Props.C10Rel.add_removed_target_exact := @Ark.Props.C10Rel.add_removed_target_exact
+
+/-- … Exchange -/
+theorem rel_exchange_removed_target_exact : type_of% @Ark.Props.C10Rel.exchange_removed_target_exact := @Ark.Props.C10Rel.exchange_removed_target_exact
+
+/-- … SetRelations -/
+theorem rel_setRelations_removed_target_exact : type_of% @Ark.Props.C10Rel.setRelations_removed_target_exact := @Ark.Props.C10Rel.setRelations_removed_target_exact
+
+/-- a relation for a component that is not among the created ones: `relNotInMask`, world unchanged (typed and ID-based path) -/
+theorem rel_newEntity_not_added : type_of% @Ark.Props.C10Rel.newEntity_not_added := @Ark.Props.C10Rel.newEntity_not_added
+
+/-- … Add -/
+theorem rel_add_not_added : type_of% @Ark.Props.C10Rel.add_not_added := @Ark.Props.C10Rel.add_not_added
+
+/-- … Exchange -/
+theorem rel_exchange_not_added : type_of% @Ark.Props.C10Rel.exchange_not_added := @Ark.Props.C10Rel.exchange_not_added
+
+/-- … SetRelations through a typed mapper -/
+theorem rel_setRelations_not_in_mapper : type_of% @Ark.Props.C10Rel.setRelations_not_in_mapper := @Ark.Props.C10Rel.setRelations_not_in_mapper
+
+/-- **a relation component named twice is rejected with the world unchanged** when a table of the archetype is active (repair D26) — NewEntity, every path -/
+theorem rel_newEntity_relTwice : type_of% @Ark.Props.C10Rel.newEntity_relTwice := @Ark.Props.C10Rel.newEntity_relTwice
+
+/-- … Add -/
+theorem rel_add_relTwice : type_of% @Ark.Props.C10Rel.add_relTwice := @Ark.Props.C10Rel.add_relTwice
+
+/-- the table lookup itself refuses such a list -/
+theorem rel_getTable_relTwice : type_of% @Ark.Props.C10Rel.getTable_relTwice := @Ark.Props.C10Rel.getTable_relTwice
+
+/-- an accepted lookup into an archetype with relation columns names no component twice, whether the table existed (D26) or was created (D18) -/
+theorem rel_lookup_accepted_names_no_component_twice : type_of% @Ark.Props.C10Rel.lookup_accepted_names_no_component_twice := @Ark.Props.C10Rel.lookup_accepted_names_no_component_twice
+
 
 end Ark.Props.C10
